@@ -1,20 +1,21 @@
 (* C08: in-Coq comparison of the diag/trace model (Gaussian-integer instance) with observations of the implementation. *)
 From Coq Require Import ZArith List Bool Arith.
-From Core Require Import Base Kron Op ZIInst C08_Diag C08_Rules.
+From Core Require Import Base Kron Op OpProofs ZIInst C08_Diag C08_Proofs C08_Rules C08_RulesProofs.
 Import ListNotations.
 (* DVecT: an integral vector observed under a loose Auto tolerance: either the exact rule ran or the stochastic
    estimator happened to return integers (zero operators, empty diagonals) *)
 Inductive dobs := DErr (e : derr) | DVec (l : list zi) | DVecT (l : list zi) | DErrT (e : derr) | DOther.
 (* DErrT: an error observed under a loose Auto tolerance. The model stops at the first stochastic part (DStoch) whereas the
    code goes on with the estimate and may hit a later refusal: both are outside this property (C17), accepted here *)
-Inductive tobs := TErr (e : derr) | TVal (x : zi) | TOther.
+Inductive tobs := TErr (e : derr) | TVal (x : zi) | TValT (x : zi) | TErrT (e : derr) | TOther.   (* ..T: under an explicit Auto tolerance, as DVecT/DErrT *)
 Definition zl_eqb (a b : list zi) : bool :=
   Nat.eqb (length a) (length b) && forallb (fun p => zi_eqb (fst p) (snd p)) (combine a b).
 Definition dmatch (r : derr + list zi) (o : dobs) : bool :=
   match r, o with inl a, DErr b => derr_eqb a b | inr l, DVec l' => zl_eqb l l' | inr l, DVecT l' => zl_eqb l l'
   | inl DStoch, DVecT _ => true | inl DStoch, DErrT _ => true | inl a, DErrT b => derr_eqb a b | _, _ => false end.
 Definition tmatch (r : derr + zi) (o : tobs) : bool :=
-  match r, o with inl a, TErr b => derr_eqb a b | inr x, TVal y => zi_eqb x y | _, _ => false end.
+  match r, o with inl a, TErr b => derr_eqb a b | inr x, TVal y => zi_eqb x y | inr x, TValT y => zi_eqb x y
+  | inl DStoch, TValT _ => true | inl DStoch, TErrT _ => true | inl a, TErrT b => derr_eqb a b | _, _ => false end.
 Definition BSZ : nat := 100.
 (* (1) the full model on an operator tree *)
 Record tcase := { te : op (R:=zi); tn : nat; tdf : dflags; tdq : list (Z * alg * dobs); ttq : list (alg * tobs) }.
@@ -39,3 +40,18 @@ Definition gbad (c : gcase) : list (nat * nat) :=
 Fixpoint gmism (i : nat) (cs : list gcase) : list (nat * list (nat * nat)) :=
   match cs with [] => [] | c :: r => match gbad c with [] => gmism (S i) r | b => (i, b) :: gmism (S i) r end end.
 Definition gcount (cs : list gcase) : nat := fold_right (fun c acc => (length (gdq c) + length (gcls c) + acc)%nat) 0%nat cs.
+
+(* (3) the exact-vs-stochastic decision of Auto on operators too large for the Coq side to multiply (sizes around 1000):
+       outcome class of diag(A, k, alg) / trace(A, alg) for a generic n x n operator. 0: the exact value (the implementation's result
+       was compared with the true diagonal by the harness: by exact_diag_cases that IS the model's value), 1: ValueError,
+       2: stochastic estimate, 3: AssertionError *)
+Record acase := { an : nat; afx : bool; aqs : list (Z * alg * nat) }.
+Definition aclass (c : acase) (k : Z) (al : alg) : nat :=       (* through C08_RulesProofs.generic_outcome *)
+  match generic_outcome (mkdflags (afx c) false false) BSZ (an c) al k ([] : list zi) with
+  | inr _ => 0%nat | inl DValue => 1%nat | inl DStoch => 2%nat | inl DAssert => 3%nat | inl DUnmodelled => 4%nat
+  end.
+Definition abad (c : acase) : list (nat * nat) :=
+  tag 5 (failing (fun q : Z * alg * nat => Nat.eqb (aclass c (fst (fst q)) (snd (fst q))) (snd q)) 0 (aqs c)).
+Fixpoint amism (i : nat) (cs : list acase) : list (nat * list (nat * nat)) :=
+  match cs with [] => [] | c :: r => match abad c with [] => amism (S i) r | b => (i, b) :: amism (S i) r end end.
+Definition acount (cs : list acase) : nat := fold_right (fun c acc => (length (aqs c) + acc)%nat) 0%nat cs.
